@@ -783,6 +783,40 @@ theorem memo_roundtrip_fixed_scalar {fx : Fixed} (h : fx.memoTime = true) (v : V
     (hm : v.tag ≠ .map) (hu : ∀ n, v = .uint n → 127 < n) : rtF fx v = v := by
   cases v <;> simp_all [rtF, toWireF, toWireT, goNorm, Val.tag]
 
+/-! ## Queued events and later requests -/
+
+def isPostOf (id : String) : QOp → Bool
+  | .post id' _ => id' == id
+  | .other _ => false
+
+/-- **later_requests_do_not_alter_queued_events** — an event queued by a request is still the same
+event (hence re-encoded identically, `marshalF fx` being a function of it) after any number of later
+requests of any content, as long as none of them re-uses its id.  Trivial in the model, where events
+are values; the correspondence check holds the implementation to it through the real
+`Router.batch`, whose body buffers are pooled. -/
+theorem later_requests_do_not_alter_queued_events (q : AList String Pay) (id : String) (p : Pay) :
+    ∀ (later : List QOp), (∀ o ∈ later, isPostOf id o = false) →
+      AList.get (later.foldl qstep (qstep q (.post id (some p)))) id = some p := by
+  suffices h : ∀ (later : List QOp) (q' : AList String Pay), AList.get q' id = some p →
+      (∀ o ∈ later, isPostOf id o = false) → AList.get (later.foldl qstep q') id = some p by
+    intro later hl
+    exact h later _ (by simp [qstep, AList.get_put]) hl
+  intro later
+  induction later with
+  | nil => intro q' h _; exact h
+  | cons o t ih =>
+    intro q' h hl
+    apply ih
+    · have ho := hl o List.mem_cons_self
+      cases o with
+      | other r => exact h
+      | post id' r =>
+        have hne : id' ≠ id := by simpa [isPostOf] using ho
+        cases r with
+        | none => simp [qstep, AList.get_del, hne, h]
+        | some p' => simp [qstep, AList.get_put, hne, h]
+    · exact fun o ho => hl o (List.mem_cons_of_mem _ ho)
+
 /-! Non-vacuity: concrete payloads, evaluated by the kernel. -/
 
 def cfgE : Cfg := { tn := ["trace.trace_id"], pn := ["trace.parent_id"], sk := ["name", "when"] }
